@@ -218,8 +218,12 @@ def run_failmag(spec, rec, dadi, Numerics, seed):
         tags = {"k": k, "log": log, "spectrum": as_spec}
         if log and fail_mag != 10:
             fail_mag = 10.0  # make_extrap_log_func exposes no fail_mag
+        # the grid list in any order: "the finest grid" is the one with the smallest x, wherever it stands in the list
+        order = [int(i) for i in rng.permutation(k)] if ci % 3 else list(range(k))
+        pts_o, x_o = [pts_l[i] for i in order], [x_l[i] for i in order]
+        tags["ordered"] = order == sorted(order)
         ok, got = rec.noraise("extrap-returns",
-                              lambda: Numerics.make_extrap_func(model, extrap_x_l=x_l, extrap_log=log, fail_mag=fail_mag)(1.0, pts_l),
+                              lambda: Numerics.make_extrap_func(model, extrap_x_l=x_o, extrap_log=log, fail_mag=fail_mag)(1.0, pts_o),
                               site=site, tags=tags)
         if not ok:
             continue
